@@ -10,7 +10,7 @@ import time
 import traceback
 
 ROOT = os.path.dirname(os.path.dirname(os.path.abspath(__file__)))
-EVID = os.path.join(ROOT, "evidence")
+EVID = os.environ.get("VERIF_EVIDENCE_DIR") or os.path.join(ROOT, "evidence")     # overridden only by the seed-evaluation tools (scratch output)
 REPLAY = os.path.join(EVID, "replay")
 
 EXTRACTION_DROPS = ("extraction reads the function's AST from /repo's working tree on every run and drops only: "
